@@ -3,7 +3,7 @@
 import re
 from engine import absint
 from engine.rules import (MustPass, guard_edges, eq_matcher, pred_matcher, outcome, loop_each_checked, loop_exits,
-                          variant_switches, switch_bool_edges, bool_atom, success_values)
+                          variant_switches, switch_bool_edges, bool_atom, success_values, root_fn)
 from engine.sym import Sym, strip, strip_deep, render, walk, short
 from props import common as K
 
@@ -60,6 +60,8 @@ def run(ctx):
         ok_struct = len(heads) == 1
         ctx.ob("R-CHK", "validate_file_name:scans-with-split_first", ok_struct,
                "the name is consumed byte by byte (one split_first producer)", where=vf.loc)
+        # the cursor that is scanned (whatever it is called): the argument of split_first
+        scan = re.escape(K.arg_renders(heads[0])[0]) if ok_struct else r"\$n"
         if ok_struct:
             head = heads[0]
             # which predicate guards the back edge?
@@ -89,10 +91,9 @@ def run(ctx):
                     for v, tb in vf.switch_edges(sw):
                         if v != 1:
                             allowed.add((sw, tb))
-                dot = eq_matcher(r"split_first\(.*\)↓Some\.0\.0$", r"^46$")
                 for bi, blk in enumerate(vf.blocks):
                     if blk["term"]["t"] == "switch":
-                        e = guard_edges(vf, sym, bi, dot)
+                        e = value_edges(f, vf, sym, bi, r"split_first\(.*\)↓Some\.0\.0$", 0x2e)
                         if e:
                             allowed.update(e)
                 # an exit edge may pass through trivial goto blocks; compare by source switch block
@@ -120,8 +121,8 @@ def run(ctx):
                        "the scan is left towards success only at end of input or at a '.' byte", where=vf.loc,
                        detail={"exits": exits, "bad": bad})
             # after the scan: exactly three bytes, all alphabetic
-            len_guard = eq_matcher(r"^len\(\$n\)$|^slice::len\(\$n\)$|len\(\$n\)", r"^3$")
-            mp = MustPass(f, lambda c: False, guard_fn=lambda bd, s, bb: guard_edges(bd, s, bb, len_guard), name="len(rest)==3")
+            len_rx = r"(^|::)len\(%s\)$" % scan
+            mp = MustPass(f, lambda c: False, guard_fn=lambda bd, s, bb: value_edges(f, bd, s, bb, len_rx, 3), name="len(rest)==3")
             ok = mp.holds(vf.name)
             ctx.ob("R-GRD", "validate_file_name:extension-length-3", ok,
                    "success requires exactly three bytes after the dot", where=vf.loc, detail=None if ok else K.why(f, mp, vf.name))
@@ -130,10 +131,10 @@ def run(ctx):
             detail = None
             for c in all_calls:
                 a = K.arg_terms(c)
-                if a[1][0] == "closure" and re.search(r"\$n", render(a[0])):
-                    ext_cls, pr = absint.byte_class(f, a[1][1], arg_index=1)
+                if re.search(r"(^|⟵)%s$" % scan, render(a[0])):
+                    ext_cls, pr = predicate_class(f, strip(a[1]))
                     detail = {"extracted": absint.fmt_class(ext_cls), "problems": pr}
-                    g = pred_matcher(r"Iterator::all$|::all$", (r"\$n",))
+                    g = pred_matcher(r"Iterator::all$|::all$", (r"(^|⟵)%s$" % scan,))
                     mp = MustPass(f, lambda c: False, guard_fn=lambda bd, s, bb: guard_edges(bd, s, bb, g), name="all alphabetic")
                     okx = ext_cls == ALPHA and not pr and mp.holds(vf.name)
             ctx.ob("R-CLS", "validate_file_name:extension-class", okx,
@@ -207,35 +208,48 @@ def run(ctx):
     # ManifestContent constructors: the captured list is what skip_opt_in accepted
     mc = find_one(ctx, f, "R-CHK", r"manifest::ManifestContent::take_from::\{closure#0\}$", "ManifestContent::take_from closure")
     if mc is not None:
-        inner = [bd for n, bd in f.bodies.items() if n.startswith("repository::manifest::ManifestContent::take_from::{closure")]
-        loop_b = [bd for bd in inner if any((c.res or "").endswith("::skip_opt_in") for c in bd.calls())]
+        # the capture loop is found by what it does (it is the caller of FileAndHash::skip_opt_in), wherever it lives
+        # below ManifestContent::take_from: in one of its closures or in a private function those call
+        is_skip = lambda c: re.search(r"manifest::FileAndHash.*::skip_opt_in$", c.res or "") is not None
+        below = _reachable_fns(f, "repository::manifest::ManifestContent::take_from")
+        loop_b = [bd for n, bd in f.bodies.items() if root_fn(f, n) in below and any(is_skip(c) for c in bd.calls())]
+        counter = None
+        lb = None
         if len(loop_b) != 1:
             ctx.missing("R-CHK", "file-list capture loop", "closure calling skip_opt_in")
         else:
             lb = loop_b[0]
+            ctx.saw_fn(lb.name)
             oc = outcome(lb)
-            # len += 1 exactly on the Some edge
+            # counter += 1 exactly on the Some edge; the counter is a captured variable of the loop's closure
             inc_blocks = set()
+            counters = set()
             for bi, blk in enumerate(lb.blocks):
                 for st in blk["stmts"]:
                     if st["s"] == "assign" and st["rv"]["r"] == "bin" and st["rv"]["bop"] in ("AddWithOverflow", "Add"):
-                        a, b2 = render(oc.sym.operand(st["rv"]["a"])), render(oc.sym.operand(st["rv"]["b"]))
-                        if a == "^len" and b2 == "1":
+                        ta, tb2 = strip_deep(oc.sym.operand(st["rv"]["a"])), strip_deep(oc.sym.operand(st["rv"]["b"]))
+                        if ta[0] == "upvar" and render(tb2) == "1":
                             inc_blocks.add(bi)
-            res = loop_each_checked(lb, None, None, elem_switch_rx=r"^Try::branch\(FileAndHash::skip_opt_in\(cons\)\)↓Continue\.0$",
-                                    require_for_return=False, pass_blocks=inc_blocks)
+                            counters.add(ta[1])
+            if len(counters) == 1:
+                counter = list(counters)[0]
+            res = []
+            entry_rx = r"^Try::branch\(FileAndHash::skip_opt_in\([^()]*\)\)↓Continue\.0$"
+            for sw, some_t in option_some_edges(lb, oc.sym, entry_rx):
+                reach = lb.reachable(some_t, removed_blocks=set(oc.fail_blocks) | inc_blocks)
+                bad = sw in reach or any(c.bb in reach for c in lb.calls() if is_skip(c))
+                res.append((lb.where(sw), not bad, "next iteration reachable without counting" if bad else
+                            "entry counted on every continuing path (%d counting block(s))" % len(inc_blocks)))
             for where, ok, detail in res:
-                ctx.ob("R-FLOW", "ManifestContent::take_from:len-counts-entries", ok and len(inc_blocks) == 1,
+                ctx.ob("R-FLOW", "ManifestContent::take_from:len-counts-entries", ok and len(inc_blocks) == 1 and counter is not None,
                        "len is incremented by one on every iteration that accepted an entry (and nowhere else)",
                        where=where, detail=detail)
             if not res:
                 ctx.ob("R-FLOW", "ManifestContent::take_from:len-counts-entries", False, "entry loop not found", where=lb.loc)
             # a failing entry fails the capture
-            mp = MustPass(f, lambda c: (c.res or "").endswith("::skip_opt_in"), name="skip_opt_in")
             # (loop: the only success exit is the None edge; errors propagate through `?`)
-            tb = [c for c in lb.calls() if c.name == "branch"]
             from engine.rules import call_checked
-            ok = all(call_checked(lb, c.bb, oc)[0] for c in lb.calls() if (c.res or "").endswith("::skip_opt_in"))
+            ok = all(call_checked(lb, c.bb, oc)[0] for c in lb.calls() if is_skip(c))
             ctx.ob("R-CHK", "ManifestContent::take_from:entry-errors-propagate", ok,
                    "an entry rejected by skip_opt_in makes the whole manifest fail to decode", where=lb.loc)
         # struct literal: len field is the counter, file_list the capture
@@ -245,9 +259,19 @@ def run(ctx):
         detail = None
         for bd, bi, si, st in sites:
             t = outcome(bd).sym.rvalue(st["rv"])
-            flds = {k: render(strip_deep(v)) for k, v in t[3]}
-            detail = flds
-            ok = re.match(r"^len⟵0$", flds.get("len", "")) is not None and "Constructed::take_sequence(cons" in flds.get("file_list", "")
+            flds = {k: through_helpers(f, v) for k, v in t[3]}
+            detail = {k: render(v) for k, v in flds.items()}
+            ln, fl = flds.get("len"), _ok_payload(flds.get("file_list") or ("unknown", "no field"))
+            # len: a variable initialised to 0 — the one the capture loop counts in
+            ok_len = ln is not None and ln[0] == "mvar" and ln[3] == ("const", 0) and lb is not None and ln[1] == counter
+            # file_list: what take_sequence(capture(loop)) returned, the loop's closure borrowing that very variable
+            ok_fl = False
+            if ok_len and fl[0] == "call" and (fl[3] or {}).get("name") == "take_sequence" and (fl[3] or {}).get("krate") == "bcder":
+                cl = [a for a in fl[2] if a[0] == "closure"]
+                ok_fl = len(cl) == 1 and lb.name.startswith(cl[0][1] + "::") and \
+                    any(c[0] == "mvar" and c[2] == ln[2] for c in cl[0][2]) and \
+                    any(c.name == "capture" and (c.krate or "") == "bcder" for c in (f.body(cl[0][1]).calls() if f.body(cl[0][1]) else ()))
+            ok = ok_len and ok_fl
         ctx.ob("R-FLOW", "ManifestContent::take_from:fields", ok,
                "ManifestContent.len is the entry counter (initialised to 0) and file_list the captured sequence",
                where=mc.loc, detail=detail)
@@ -344,6 +368,251 @@ def run(ctx):
                where=db.loc, detail=K.arg_renders(cs[0]) if cs else None)
 
 
+def _reachable_fns(f, start, depth=4):
+    """`start` and the crate functions reachable from it (and from its closures) through static calls, a few levels."""
+    seen = {start}
+    frontier = [start]
+    for _ in range(depth):
+        nxt = []
+        for fn in frontier:
+            for n, bd in f.bodies.items():
+                if root_fn(f, n) != fn:
+                    continue
+                for c in bd.calls():
+                    if c.is_static and c.res and c.res not in seen and f.body(c.res) is not None:
+                        seen.add(c.res)
+                        nxt.append(c.res)
+        frontier = nxt
+    return seen
+
+
+def option_some_edges(body, sym, place_rx):
+    """[(switch block, target)] of the edges on which the Option X (render(X) ~ place_rx) is known to be Some: `match`/
+    `if let`/`while let` on it, or a test of X.is_some() / X.is_none()."""
+    out = []
+    for sw in variant_switches(body, sym, place_rx):
+        for v, tb in body.switch_edges(sw):
+            if v == 1:
+                out.append((sw, tb))
+    for bi, blk in enumerate(body.blocks):
+        t = blk["term"]
+        if t["t"] != "switch" or t.get("dty") != "bool" or blk.get("cleanup"):
+            continue
+        for nm, pos in (("is_some", True), ("is_none", False)):
+            e = guard_edges(body, sym, bi, pred_matcher(r"Option::%s$|::%s$" % (nm, nm), (place_rx,), positive=pos))
+            if e:
+                out.extend(e)
+    return out
+
+
+def _ok_payload(t):
+    """`x?` is the Ok payload of x."""
+    t = strip_deep(t)
+    if t[0] == "field" and t[2] == "0" and t[1][0] == "variant" and t[1][2] == "Continue":
+        c = strip_deep(t[1][1])
+        if c[0] == "call" and (c[3] or {}).get("name") == "branch" and len(c[2]) == 1:
+            return strip_deep(c[2][0])
+    return t
+
+
+def through_helpers(f, t, depth=0):
+    """A value obtained from a call of a crate function with one success value, `H(..)?`, `H(..)?.1`, …: the term that
+    function returns there (in the function's own terms).  Other terms are returned as they are."""
+    t = strip_deep(t)
+    projs = []
+    cur = t
+    while cur[0] == "field" and not (cur[2] == "0" and cur[1][0] == "variant" and cur[1][2] == "Continue"):
+        projs.append(cur[2])
+        cur = strip_deep(cur[1])
+    inner = _ok_payload(cur)
+    if inner is cur or inner[0] != "call" or depth > 3:
+        return t
+    hb = f.body((inner[3] or {}).get("res") or inner[1])
+    if hb is None:
+        return t
+    vals = [v for _, _, v in success_values(hb)]
+    if len(vals) != 1:
+        return t
+    v = strip_deep(vals[0])
+    if not (v[0] == "agg" and v[2] == "Ok" and len(v[3]) == 1):
+        return t
+    v = strip_deep(v[3][0][1])
+    for name in reversed(projs):
+        if v[0] != "agg":
+            return t
+        nxt = [x for k, x in v[3] if k == name]
+        if len(nxt) != 1:
+            return t
+        v = strip_deep(nxt[0])
+    return through_helpers(f, v, depth + 1)
+
+
+def value_edges(f, body, sym, bb, place_rx, value):
+    """Edges of the switch at bb on which `X == value` is known, X rendering like place_rx: a boolean comparison in
+    either order / polarity (named integer constants folded), or a match on X itself with `value` as a pattern."""
+    t = body.term(bb)
+    if t["t"] != "switch":
+        return None
+    rx = re.compile(place_rx)
+    if t.get("dty") == "bool":
+        def m(rel, a, b):
+            if rel != "eq" or b is None:
+                return None
+            a2, b2 = K.fold_consts(a, f.consts), K.fold_consts(b, f.consts)
+            for x, y in ((a2, b2), (b2, a2)):
+                if rx.search(render(x)) and y[0] == "const" and not isinstance(y[1], bool) and y[1] == value:
+                    return True
+            return None
+        return guard_edges(body, sym, bb, m)
+    d = strip_deep(sym.operand(t["discr"]))
+    if d[0] in ("discr",) or not rx.search(render(d)):
+        return None
+    out = [(bb, tb) for v, tb in t["targets"] if v == value]
+    return out or None
+
+
+def predicate_class(f, t):
+    """Byte class of a per-byte predicate given as a closure, a crate function or one of std's u8::is_ascii_* methods."""
+    if t[0] == "closure":
+        return absint.byte_class(f, t[1], arg_index=1)
+    if t[0] == "fnref":
+        if f.body(t[1]) is not None:
+            return absint.byte_class(f, t[1])
+        m = re.match(r"^core::num::<impl u8>::(is_ascii\w*)$", t[1])
+        if m and m.group(1) in absint.ASCII_CLASSES:
+            return {x for lo, hi in absint.ASCII_CLASSES[m.group(1)] for x in range(lo, hi + 1)}, []
+    return None, ["predicate not understood: " + render(t)[:120]]
+
+
+
+def reach_tests(b, s, target):
+    """Under which conditions control arrives at block `target`: the disjunction of the literals on the last branches
+    before it.  Returns (tests, problems) with tests = [(boolean term, truth)].  A boolean that was first stored in a local
+    (`let d = a || b; if d {…}`, or a helper inlined by a view) is followed back to the values assigned to it."""
+    tests, problems = [], []
+    region = {target}               # blocks from which `target` is reached without a further decision
+    done = set()
+    changed = True
+    while changed:
+        changed = False
+        for x in list(region):
+            for p in b.preds(x):
+                if p in region or b.is_cleanup(p):
+                    continue
+                if b.term(p)["t"] != "switch":
+                    region.add(p)
+                    changed = True
+                    continue
+                edges = b.switch_edges(p)
+                into = [v for v, tb in edges if tb in region]
+                if len(into) == len(edges):
+                    region.add(p)
+                    changed = True
+    if 0 in region:
+        problems.append("reached unconditionally")
+    for p in range(len(b.blocks)):
+        if p in region or b.is_cleanup(p) or b.term(p)["t"] != "switch":
+            continue
+        edges = b.switch_edges(p)
+        into = [v for v, tb in edges if tb in region]
+        if not into:
+            continue
+        t = b.term(p)
+        listed = [v for v, _ in edges if v is not None]
+        if t.get("dty") != "bool" or listed != [0] or len(into) != 1:
+            problems.append("bb%d: not a boolean test: %s" % (p, render(strip_deep(s.operand(t["discr"])))[:120]))
+            continue
+        truth = into[0] is None
+        term = strip(s.operand(t["discr"]))
+        if term[0] != "var":
+            tests.append((term, truth))
+            continue
+        # a stored boolean: look at what was stored on each way here
+        for db, val in s.defs_of_var(term[2]):
+            cur, steps = db, 0
+            while cur != p and steps < 64:
+                steps += 1
+                tt = b.term(cur)
+                if tt["t"] == "switch" or len(b.succs(cur)) != 1:
+                    cur = None
+                    break
+                cur = b.succs(cur)[0]
+            if cur != p:
+                problems.append("bb%d: stored boolean %s is not assigned right before the test" % (p, term[1]))
+                continue
+            v = strip_deep(val)
+            if v[0] == "const" and isinstance(v[1], (bool, int)):
+                if bool(v[1]) == truth:
+                    sub, pr = reach_tests(b, s, db)
+                    tests.extend(sub)
+                    problems.extend(pr)
+            else:
+                tests.append((v, truth))
+    return tests, problems
+
+
+def _bytes_of(t):
+    if t[0] == "bytes":
+        return bytes(t[1])
+    m = re.match(r"^b'(.*)'$", render(t))
+    return m.group(1).encode() if m else None
+
+
+def eq_bytes_literals(f, body, term, truth, depth=0):
+    """If `term == truth` is equivalent to a disjunction of `X == <byte string>` comparisons, the set {(α-text of X,
+    byte string)}; else None.  Calls of crate-local one-argument predicates are decided from their truth table."""
+    from engine import orderlogic as OL
+    t = strip_deep(term)
+    t = K.fold_consts(t, f.consts)
+    a = OL.atom(t)
+    while a[0] == "not":
+        a, truth = a[1], not truth
+    if a[0] == "cmp" and a[1] in ("==", "!="):
+        if (a[1] == "==") != truth:
+            return None
+        lx, ly = _bytes_of(a[2]), _bytes_of(a[3])
+        if (lx is None) == (ly is None):
+            return None
+        return {(K.alpha(render(a[2] if lx is None else a[3]), body), ly if lx is None else lx)}
+    if a[0] != "opaque" or not truth or depth > 2:
+        return None
+    c = t
+    while c[0] == "un" and c[1] == "Not":
+        c = strip_deep(c[2])
+    if c[0] != "call" or len(c[2]) != 1:
+        return None
+    hb = f.body((c[3] or {}).get("res") or c[1])
+    if hb is None or hb.arg_count != 1:
+        return None
+    hs = Sym(hb)
+    try:
+        ps = OL.paths(hb, hs)
+    except OL.NotComparisonOnly:
+        return None
+    lits = {}
+
+    def reg(x):
+        while x[0] == "not":
+            x = x[1]
+        if x[0] == "cmp":
+            got = eq_bytes_literals(f, hb, ("bin", "Eq", x[2], x[3]), True, depth + 1) if x[1] in ("==", "!=") else None
+            if got and len(got) == 1:
+                (who, lit), = got
+                if who == "%1":
+                    lits[OL._atom_key(x)] = lit
+    for conds, ret in ps:
+        for x, _ in conds:
+            reg(x)
+        if ret is not None:
+            reg(OL.atom(ret))
+    names = [("^" + re.escape(k) + "$", repr(v)) for k, v in lits.items()]
+    ok, _ = OL.decide_bool(hb, hs, names, lambda env: any(env.values()))
+    if not ok or not lits:
+        return None
+    arg = K.alpha(render(strip_deep(c[2][0])), body)
+    return {(arg, v) for v in lits.values()}
+
+
 def check_join_dot_segments(ctx, f):
     """What Rsync::check_path (hence Rsync::join) rejects as a dot segment is exactly "." and ".." — not, say, every
     segment that starts with a dot: a manifest may legitimately list ".cer"-like names that the name check accepts."""
@@ -357,23 +626,19 @@ def check_join_dot_segments(ctx, f):
         for st in blk["stmts"]:
             if st["s"] == "assign" and st["pl"]["l"] == 0 and "DotSegments" in render(strip_deep(s.rvalue(st["rv"]))):
                 target = bi
-    tests = set()
+    shown, lits, problems = [], set(), []
     if target is not None:
-        seen, work = set(), [target]
-        while work:
-            x = work.pop()
-            for p in b.preds(x):
-                if p in seen:
-                    continue
-                seen.add(p)
-                t = b.term(p)
-                if t["t"] == "switch":
-                    edge = [("else" if v is None else str(v)) for v, tb in b.switch_edges(p) if tb == x]
-                    tests.add("%s -> %s" % (K.alpha(render(strip_deep(s.operand(t["discr"]))), b), ",".join(edge)))
-                else:
-                    work.append(p)
-    pat = r"^(PartialEq::eq|cmp::impls::<impl std::cmp::PartialEq<&B> for &A>::eq|[\w:<> &]*::eq)\((.+), b'(\.\.?)'\) -> else$"
-    lits = sorted(m.group(3) for t in tests for m in [re.match(pat, t)] if m)
-    ok = target is not None and len(tests) == 2 and lits == [".", ".."]
+        tests, problems = reach_tests(b, s, target)
+        for term, truth in tests:
+            shown.append("%s%s" % ("" if truth else "!", K.alpha(render(strip_deep(term)), b)))
+            got = eq_bytes_literals(f, b, term, truth)
+            if got is None:
+                problems.append("not a comparison with a constant segment: " + shown[-1][:160])
+            else:
+                lits |= got
+    who = {w for w, _ in lits}
+    ok = target is not None and not problems and len(who) == 1 and {v for _, v in lits} == {b".", b".."}
     ctx.ob("R-CLS", "Rsync::check_path:dot-segments-are-exactly-.-and-..", ok,
-           'Rsync::check_path answers DotSegments exactly for a segment equal to "." or ".."', where=b.loc, detail=sorted(tests))
+           'Rsync::check_path answers DotSegments exactly for a segment equal to "." or ".."', where=b.loc,
+           detail={"tests": sorted(shown), "problems": problems,
+                   "literals": sorted("%s == %r" % (w, v) for w, v in lits)})
